@@ -17,7 +17,7 @@ class C14(Prop):
     level_note = 'Trusted: Lean kernel + standard axioms; datetime arithmetic; the virtual clock patches rsocket.lease.datetime.'
     design_ref = '§5 C14'
     rule = ('sequences of LEASE frames (count 0..5, ttl 0..400 ms) and requests of the four request types at non-decreasing virtual times (incl. exactly at expiry), queue size 0/1/3, with '
-            'and without fragmentation, and reconnects in between (each connection starts without a lease); responder: published leases with counts and time-to-live from 1 ms to the 31-bit maximum incl. sub-second parts, whole days and more than a day; non-trivial = a request was held and later released, refused, or '
+            'and without fragmentation, and reconnects in between (each connection starts without a lease); responder (a server, or a client that grants leases): published leases with counts and time-to-live from 1 ms to the 31-bit maximum incl. sub-second parts, whole days and more than a day; non-trivial = a request was held and later released, refused, or '
             'sent under a lease close to expiry; distinct = distinct history')
     assumptions = ['whole-millisecond time-to-live values']
 
@@ -46,7 +46,7 @@ class C14(Prop):
                     evs.append(['R', rng.choice(['rr', 'fnf', 'stream', 'channel']), t])
             out.append({'kind': 'req', 'cap': rng.choice([0, 0, 1, 3]), 'frag': rng.choice([None, None, 64]), 'evs': evs})
         for _ in range(n // 5):
-            out.append({'kind': 'announce', 'leases': [[rng.choice([0, 1, 7, 2 ** 31 - 1]), rng.choice([1000, 2_500_000, 500_000, 1_500_000, 60_000_000, 999_000, 86_399_999_000, 86_400_000_000, 86_405_000_000, 172_800_000_000, 266_400_017_000,
+            out.append({'kind': 'announce', 'role': rng.choice(['server', 'server', 'client']), 'leases': [[rng.choice([0, 1, 7, 2 ** 31 - 1]), rng.choice([1000, 2_500_000, 500_000, 1_500_000, 60_000_000, 999_000, 86_399_999_000, 86_400_000_000, 86_405_000_000, 172_800_000_000, 266_400_017_000,
                                                                                                    2_147_483_647_000, rng.randint(1, 2_147_483_647) * 1000])] for _ in range(rng.randint(1, 3))]})
         return out
 
@@ -124,11 +124,19 @@ class C14(Prop):
             def subscribe(self, s):
                 self.s = s
         pub = Pub()
-        t = simnet.ScriptedTransport(loop)
-        server = RSocketServer(t, lease_publisher=pub)
-        await loop.settle()
-        t.deliver(engine.build_frame({'ty': 'SETUP', 'sid': 0, 'complete': True}).serialize())
-        await loop.settle()
+        if case.get('role') == 'client':
+            # a client that grants leases to its peer (it is a responder too): honor_lease + lease_publisher
+            R = clientrun.ClientRun(loop, n_transports=1, ka_ms=10_000_000, life_ms=100_000_000, honor_lease=True, lease_publisher=pub)
+            server = R.build()
+            await server.connect()
+            await loop.settle()
+            t = R.transports[0]
+        else:
+            t = simnet.ScriptedTransport(loop)
+            server = RSocketServer(t, lease_publisher=pub)
+            await loop.settle()
+            t.deliver(engine.build_frame({'ty': 'SETUP', 'sid': 0, 'complete': True}).serialize())
+            await loop.settle()
         for n, us in case['leases']:
             if not hasattr(pub, 's'):
                 break         # the endpoint never subscribed to its lease publisher: nothing can be announced
